@@ -383,6 +383,18 @@ def r_unify_table(ck: Checker) -> None:
     guarded = any("symbol.type" in k for ret, st in it.returns for k in list(st.vals) + list(st.facts))
     ck.add("two different symbolic terms are 'different' only if neither is a symbolic constant", guarded, func, func.node, f"decision looks at the symbol type: {guarded}",
            "`#const c=5.` (or -c c=5) makes the tuples (L,c) and (L,5) coincide", rule="C02.TABLE.const")
+    # two function terms: same name, same arity, and the arguments compared POSITION BY POSITION
+    itf = ck.interp(func, Pins.of(vals={f"{lhs}.ast_type": "ASTType.Function", f"{rhs}.ast_type": "ASTType.Function"}))
+    shapes = set()
+    for ret, st in itf.returns:
+        if ret.value is None or isinstance(ret.value, ast.Constant):
+            continue
+        shapes.add(unparse(ret.value))
+    want_f = f"{lhs}.name == {rhs}.name and len({lhs}.arguments) == len({rhs}.arguments) and all(_potentially_unifying(x[0], x[1]) for x in zip({lhs}.arguments, {rhs}.arguments))"
+    want_g = f"{lhs}.name == {rhs}.name and len({lhs}.arguments) == len({rhs}.arguments) and all(_potentially_unifying(a, b) for a, b in zip({lhs}.arguments, {rhs}.arguments))"
+    ok_f = bool(shapes) and all(same(s, want_f) or same(s, want_g) or same(s, want_f.replace("_potentially_unifying(x[0], x[1])", "_potentially_unifying(*x)")) for s in shapes)
+    ck.add("(Function, Function): equal name and arity and pairwise unifying arguments, position by position", ok_f, func, func.node, f"answers `{sorted(short(s, 150) for s in shapes)}`",
+           "comparing every argument of one term with every argument of the other (a product instead of a zip) calls `cost(soft,1)` and `cost(soft,N)` different although N may be 1: two objective tuples that can coincide are treated as distinct and counted twice")
     seq = ck.func("utils.ast:potentially_unifying_sequence")
     its = ck.interp(seq)
     # (the normal form writes `return all(f(x) for x in xs)` as the search loop it abbreviates)
